@@ -11,7 +11,7 @@ from ..model import AnalysisError, unparse, walk_no_nested
 from .common import (root_of_expr, path_from_param, dominates, const_value, gate_with, floor, call_name, is_call_to)
 from .c01 import prim_calls
 from .c03 import find_ratio, branch_label, user_derived, is_attr, is_items_of_contents, strip_clamp
-from . import targets
+from . import targets, unitspec
 from .. import uscan
 
 ALL = frozenset(('solid', 'liquid', 'enzyme'))
@@ -310,14 +310,21 @@ def passthrough(ctx):
                            fact='call is not inside a loop of the per-well function', nontrivial=False,
                            why='a well receives the quantity several times', key='transfer looped per well')
     floor(ctx, 'nested transfer calls', n, 6)
-    # the vectorisers call the per-well function exactly once per element
+    vectorize_once(ctx, 'C02.R3')
+    # the transfer relies on the storage conversions for the requested amount: they must map to the storage units
+    unitspec.api_verified(ctx, 'C02.R1')
+
+
+def vectorize_once(ctx, rule):
+    """The vectorisers call the per-well function exactly once per element."""
+    model = ctx.model
     ap = model.func('Slicer.apply')
     vecs = [c for c in ast.walk(ap.node) if isinstance(c, ast.Call) and unparse(c.func).endswith('vectorize')]
     floor(ctx, 'vectorize calls in Slicer.apply', len(vecs), 1)
     for c in vecs:
         kws = {k.arg: k.value for k in c.keywords}
         ok = ('cache' in kws and const_value(kws['cache']) is True) or 'otypes' in kws
-        ctx.ob('C02.R3', ap, c.lineno, 'Slicer.apply: numpy.vectorize does not make an extra warm-up call', ok,
+        ctx.ob(rule, ap, c.lineno, 'Slicer.apply: numpy.vectorize does not make an extra warm-up call', ok,
                fact=f"keywords {sorted(kws)}",
                why='without cache=True/otypes numpy calls the function once more on the first element: the first well '
                    'is transferred twice', key='vectorize warm-up call')
